@@ -96,7 +96,7 @@ func RunTypestate(f *ssa.Function, startDirty bool, cfg TSCfg) (viol []TSViolati
 			}
 		}
 		if ifi, ok := b.Instrs[len(b.Instrs)-1].(*ssa.If); ok && cfg.Branch != nil {
-			conds := flatten(Cond{ifi.Cond, true, ifi})
+			conds := flatten(Cond{V: ifi.Cond, Pol: true, If: ifi})
 			if call, ok := conds[0].V.(*ssa.Call); ok && call.Block() == b {
 				if t, fl, ok := cfg.Branch(call); ok && usedOnlyAsBranch(call) {
 					if !conds[0].Pol {
